@@ -522,7 +522,10 @@ impl Harness for C12 {
         }
         // small-scale data (coordinates ~1e-4 and ~1e-6): every clause is scale invariant
         for &sc in &[0.0001220703125f64, 9.5367431640625e-7] {
-            for (n, k) in [(3usize, 2usize), (4, 2), (4, 3)] {
+            for (n, k) in [(3usize, 2usize), (4, 2), (3, 3), (4, 3)] {
+                if !t && n == 4 && k == 3 {
+                    continue;
+                }
                 fit_jobs.push(Job::new(format!("fit-1d-n{}-k{}-scale{:e}", n, k, sc), json!({"kind": "fit", "n": n, "dim": 1, "side": 4, "k": k, "edges": false, "scale": sc})));
             }
             fit_jobs.push(Job::new(format!("fit-2d-n3-k2-scale{:e}", sc), json!({"kind": "fit", "n": 3, "dim": 2, "side": 3, "k": 2, "edges": false, "scale": sc})));
